@@ -185,6 +185,8 @@ MUTANTS = [
     ("guard-generic-for-names-wrong-node", "C03", "src/formatters/stmt.rs",
      "    let require_names_multiline = trivia_util::contains_comments(generic_for.names())", "    let require_names_multiline = trivia_util::contains_comments(generic_for.for_token())",
      "comment-guard-removed contains_comments(names"),
+    ("nl-line-comment-not-trimmed", "C10", "src/formatters/general.rs",
+     "    comment.trim_end()", "    comment", "not-trimmed"),
     ("regex-drop-z", "C04", "src/formatters/general.rs",
      'r#"^[^\\n\\r"\'0-9\\\\abfnrtuvxz]$"#', 'r#"^[^\\n\\r"\'0-9\\\\abfnrtuvx]$"#', "escape-dropped=z"),
     ("group-line-distance", "C12", "src/sort_requires.rs",
